@@ -1161,7 +1161,18 @@ pub fn generate9(seed: u64, index: u64) -> Wire9Spec {
             7 => Cand::G2YPlus1 { k: hk(&mut pr) },
             8 => Cand::G2XPlus1 { k: hk(&mut pr) },
             9 => {
-                if pr.chance(1, 2) {
+                if pr.chance(1, 4) {
+                    // degenerate pairs: (0,0), (0,1), (1,0)
+                    let z = hex(&[0u8; 64]);
+                    let mut ob = vec![0u8; 64];
+                    ob[63] = 1;
+                    let o = hex(&ob);
+                    match pr.below(3) {
+                        0 => Cand::G2Junk { x: z.clone(), y: z },
+                        1 => Cand::G2Junk { x: z, y: o },
+                        _ => Cand::G2Junk { x: o, y: z },
+                    }
+                } else if pr.chance(1, 2) {
                     Cand::G2Junk { x: hex(&pr.bytes(64)), y: hex(&pr.bytes(64)) }
                 } else {
                     let mut lam = pr.bytes(64);
@@ -1183,7 +1194,20 @@ pub fn generate9(seed: u64, index: u64) -> Wire9Spec {
             13 => Cand::G1XPlus1 { k: hk(&mut pr) },
             14 | 15 => Cand::G1WrongB { x: hex(&pr.bytes(32)), b: *pr.pick(&[0u64, 1, 2, 3, 4, 6, 7, 10, 101, 102, 103, 104, 105, 101, 102, 104]) },
             16 | 17 => match pr.below(3) {
-                0 => Cand::G1Junk { x: hex(&pr.bytes(32)), y: hex(&pr.bytes(32)) },
+                0 => {
+                    if pr.chance(1, 3) {
+                        // degenerate pairs: (0,0), (0,1), (1,0), (0, sqrt 5), ...
+                        let z = hex(&[0u8; 32]);
+                        let o = hex(&be32(&BigUint::one()));
+                        match pr.below(3) {
+                            0 => Cand::G1Junk { x: z.clone(), y: z },
+                            1 => Cand::G1Junk { x: z, y: o },
+                            _ => Cand::G1Junk { x: o, y: z },
+                        }
+                    } else {
+                        Cand::G1Junk { x: hex(&pr.bytes(32)), y: hex(&pr.bytes(32)) }
+                    }
+                }
                 1 => {
                     // y whose square has chosen stored limbs W: y = sqrt(W * R^-1)
                     let q = model::q();
